@@ -474,6 +474,9 @@ func noneForeignBody(r *rand.Rand, lx *xmltree.Lex) string {
 	return string(xmltree.Render(root, lx))
 }
 
+// shortJunk are bodies of one to three bytes that are not an XML document.
+var shortJunk = []string{"<", "x", "0", "&", "<a", "]]>", "<a>", "{}", "\x00"}
+
 var nearEmptyBodies = []string{" ", "\r\n", "\n\t ", `<?xml version="1.0" encoding="utf-8"?>`, "<?xml version=\"1.0\"?>\n", "\xef\xbb\xbf", "\xef\xbb\xbf\n"}
 
 // genRequest draws one request against resource t of the environment.
@@ -524,6 +527,15 @@ func genRequest(r *rand.Rand, e *env, t int) request {
 		q.Form = "malformed"
 		valid := xmltree.Render(davx.PropFindTree("prop", genNames(r)), lx)
 		q.Body = malformedBody(r, valid)
+		if r.Intn(3) == 0 {
+			// one to three bytes that are no document, half of them without
+			// a Content-Type: what tells them from "no body" is their
+			// presence alone (framing family, framing.go)
+			q.Body = shortJunk[r.Intn(len(shortJunk))]
+			if r.Intn(2) == 0 {
+				q.CT = ""
+			}
+		}
 	default:
 		// a body that holds no document: white space, an XML declaration, a BOM
 		q.Form = "near-empty"
